@@ -581,8 +581,13 @@ class ReadBack(Oracle):
         return fails
 
 
-def _glob_rx(gb):
-    """globset syntax (literal_separator = false) -> regex over bytes: * ? \\x [..] [!..] {a,b}"""
+class BadGlob(ValueError):
+    pass
+
+
+def _glob_rx(gb, inside=False):
+    """globset 0.4 syntax (literal_separator = false, backslash_escape = true) -> regex over bytes:
+    * ? \\x [..] [!..] {a,b}; raises BadGlob for what globset rejects"""
     out, i = b"", 0
     while i < len(gb):
         c = gb[i:i + 1]
@@ -590,7 +595,9 @@ def _glob_rx(gb):
             out += b".*"
         elif c == b"?":
             out += b"."
-        elif c == b"\\" and i + 1 < len(gb):
+        elif c == b"\\":
+            if i + 1 >= len(gb):
+                raise BadGlob("dangling escape")
             i += 1
             out += re.escape(gb[i:i + 1])
         elif c == b"[":
@@ -598,24 +605,79 @@ def _glob_rx(gb):
             neg = gb[j:j + 1] in (b"!", b"^")
             if neg:
                 j += 1
-            items = b""
-            first = True
-            while j < len(gb) and (gb[j:j + 1] != b"]" or first):
+            ranges, first, in_range = [], True, False
+            while True:
+                if j >= len(gb):
+                    raise BadGlob("unclosed class")
                 ch = gb[j:j + 1]
-                if gb[j + 1:j + 2] == b"-" and j + 2 < len(gb) and gb[j + 2:j + 3] != b"]":
-                    items += re.escape(ch) + b"-" + re.escape(gb[j + 2:j + 3])
-                    j += 3
+                j += 1
+                if ch == b"]":
+                    if first:
+                        ranges.append([b"]", b"]"])
+                    else:
+                        break
+                elif ch == b"-":
+                    if first:
+                        ranges.append([b"-", b"-"])
+                    elif in_range:
+                        ranges[-1][1] = b"-"
+                        if ranges[-1][1] < ranges[-1][0]:
+                            raise BadGlob("invalid range")
+                        in_range = False
+                    else:
+                        in_range = True
                 else:
-                    items += re.escape(ch)
-                    j += 1
+                    if in_range:
+                        ranges[-1][1] = ch
+                        if ranges[-1][1] < ranges[-1][0]:
+                            raise BadGlob("invalid range")
+                    else:
+                        ranges.append([ch, ch])
+                    in_range = False
                 first = False
-            out += b"[" + (b"^" if neg else b"") + items + b"]"
-            i = j
+            if in_range:
+                ranges.append([b"-", b"-"])
+            out += b"[" + (b"^" if neg else b"") + b"".join(re.escape(a) + (b"-" + re.escape(b) if a != b else b"") for a, b in ranges) + b"]"
+            i = j - 1
         elif c == b"{":
-            j = gb.index(b"}", i)
-            alts = gb[i + 1:j].split(b",")
-            out += b"(?:" + b"|".join(_glob_rx(a) for a in alts) + b")"
-            i = j
+            if inside:
+                raise BadGlob("nested alternates")
+            j = i + 1
+            depth_end = None
+            k = j
+            while k < len(gb):
+                if gb[k:k + 1] == b"\\":
+                    k += 2; continue
+                if gb[k:k + 1] == b"[":
+                    # skip the class
+                    kk = gb.find(b"]", k + 2)
+                    if kk < 0:
+                        raise BadGlob("unclosed class")
+                    k = kk + 1; continue
+                if gb[k:k + 1] == b"{":
+                    raise BadGlob("nested alternates")
+                if gb[k:k + 1] == b"}":
+                    depth_end = k; break
+                k += 1
+            if depth_end is None:
+                raise BadGlob("unclosed alternates")
+            body = gb[j:depth_end]
+            alts, cur, k = [], b"", 0
+            while k < len(body):
+                if body[k:k + 1] == b"\\":
+                    cur += body[k:k + 2]; k += 2; continue
+                if body[k:k + 1] == b",":
+                    alts.append(cur); cur = b""
+                else:
+                    cur += body[k:k + 1]
+                k += 1
+            alts.append(cur)
+            parts = [_glob_rx(a, inside=True) for a in alts if a != b""]
+            if parts:
+                out += b"(?:" + b"|".join(parts) + b")"
+            i = depth_end
+        elif c == b"}":
+            pass          # nothing open: an empty group
         else:
             out += re.escape(c)
         i += 1
@@ -678,8 +740,12 @@ class Listing(Oracle):
             else:
                 g = unhx(garg).decode("utf-8")
                 try:
-                    want = sorted(x for x in pool if glob_to_re(g).match(x))
-                except (re.error, ValueError):
+                    rx = glob_to_re(g)
+                    want = sorted(x for x in pool if rx.match(x))
+                except BadGlob:
+                    self.checks += 1
+                    return [] if not ok(resp) else ["`%s %r` succeeded although the pattern is malformed" % (op, g)]
+                except re.error:
                     return []
             self.checks += 1
             if not ok(resp):
